@@ -60,6 +60,18 @@ def validate(v, trace, name):
     return len(distinct)
 
 
+def reps_of(text):
+    """how often the text's first few characters repeat at its start"""
+    for n in (2, 3, 6):
+        unit = text[:n]
+        if unit and text.startswith(unit * 3):
+            k = 0
+            while text.startswith(unit, k * n):
+                k += 1
+            return k
+    return 0
+
+
 def run(v):
     wd = common.workdir("c01")
     thorough = v.tier == "thorough"
@@ -125,7 +137,10 @@ def run(v):
         v.cov["evaluations"] += 1
         if rc != 0:
             aborted += 1
-            v.failure({"kind": "process-aborted-or-hung", "front": front, "shape": text[:8], "overflow": "overflowed its stack" in err},
+            # (Typst texts nested thousands of levels deep overflow the stack inside the third-party parser, typst-syntax,
+            # before Harper's translator sees them: a class of its own)
+            v.failure({"kind": "process-aborted-or-hung", "front": front, "shape": text[:8], "overflow": "overflowed its stack" in err,
+                       "levels": "thousands" if reps_of(text) >= 5000 else "hundreds"},
                       {"front": front, "text_head": text[:60], "repetitions": len(text), "rc": rc, "stderr": err[-400:]})
     v.cov["deep_nesting_texts"] = {"run": len(deep), "aborted": aborted}
     return v.finish()
